@@ -12,7 +12,7 @@ error additionally the offending text and the original ValueError.
 
 import collections
 
-from zcv import gen, loadcheck, model, refload
+from zcv import refdt, gen, loadcheck, model, refload
 from zcv.core import Result, failure
 
 ID = "C08"
@@ -159,6 +159,31 @@ def compare(ast, sm, schema, resources, main=MAIN, mode="mem"):
             return ref, None, out
         if mode == "files":
             got = loadcheck.real_load_url(schema, main)
+        elif mode == "fileurl" and len(resources) == 1:
+            # an open disk file together with an explicit URL: the caller's URL names the resource
+            import os
+            import tempfile
+            fd, path = tempfile.mkstemp(prefix="zcv-c08-", suffix=".conf")
+            try:
+                with os.fdopen(fd, "w", encoding="utf-8", newline="\n") as fh:
+                    fh.write(resources[main])
+                with open(path, encoding="utf-8", newline="\n") as fh:
+                    try:
+                        cfg, handler = ZConfig.loadConfigFile(schema, fh, main)
+                        got = ("ok", cfg, handler)
+                    except ZConfig.ConfigurationError as e:
+                        got = ("reject", e)
+                    except Exception as e:  # noqa
+                        zf, inner = loadcheck.innermost_zconfig_frame(e)
+                        got = ("internal", e, zf, inner)
+            finally:
+                os.unlink(path)
+        elif mode == "override":
+            ov = harmless_override(sm, resources)
+            if ov is None:
+                got = loadcheck.real_load_resources(schema, resources, main)
+            else:
+                got = loadcheck.real_load_resources(schema, resources, main, overrides=[ov])
         elif mode == "nourl" and len(resources) == 1:
             got = loadcheck.real_load(schema, resources[main], url=None)
             if ref.url == main:
@@ -169,6 +194,22 @@ def compare(ast, sm, schema, resources, main=MAIN, mode="mem"):
         if root:
             shutil.rmtree(root, ignore_errors=True)
     return _judge(ZConfig, ref, got, out)
+
+
+def harmless_override(sm, resources):
+    """A specifier for a top-level optional key with an identity datatype that no line of the
+    text mentions: the load with it is rejected for the same reason, at the same place."""
+    words = set()
+    for text in resources.values():
+        for l in text.split("\n"):
+            w = l.strip().split(None, 1)
+            if w:
+                words.add(w[0].lower())
+    for it in sm.top.items:
+        if not it.is_section() and not it.wild and not it.required and it.dt in ("string", "null") \
+                and it.name.lower() not in words and refdt.basic_key(it.name)[0] == "ok":
+            return "%s=zcv-harmless" % it.name
+    return None
 
 
 def _judge(ZConfig, ref, got, out):
@@ -295,9 +336,9 @@ def run_shard(spec):
                     resources, cuts = {MAIN: mutated}, []
                 res.evaluations += 1
                 if len(resources) == 1:
-                    mode = rng.choice(["mem", "nourl", "files"])
+                    mode = rng.choice(["mem", "nourl", "files", "fileurl", "override"])
                 else:
-                    mode = rng.choice(["mem", "files", "files"])
+                    mode = rng.choice(["mem", "files", "files", "override"])
                 counters["mode:" + mode] += 1
                 ref, got, fl = compare(ast, sm, schema, resources, MAIN, mode)
                 counters["inject:" + kind.split("+")[-1]] += 1
